@@ -10,6 +10,7 @@ mod logfile;
 mod meta;
 mod node;
 mod registry;
+mod seq;
 mod sm;
 mod smreplay;
 mod store;
@@ -32,6 +33,8 @@ fn main() {
         ("record", "sm") => smreplay::record(&args[3..]),
         ("replay", "cfgcenter") => cfgcenter::replay(&args[3..]),
         ("replay", "registry") => registry::replay(&args[3..]),
+        ("record", "seqgroup") => seq::record_seqgroup(&args[3..]),
+        ("record", "seqnode") => seq::record_seqnode(&args[3..]),
         ("replay", "meta") => meta::replay(&args[3..]),
         ("node", "run") => node::main_node(&args[3..]),
         _ => Err(anyhow::anyhow!("unknown command {} {}", args[1], args[2])),
